@@ -143,7 +143,7 @@ def run_jobs(jobs, kind="plain", per_job_timeout=20.0, chunk=12, parallel=6, sta
 EQS = ["A -> ", " -> A", "A -> B", "A + B -> C", "2 A -> B", "B -> A + A", "A + B -> ", "C -> B", "B -> C"]
 
 
-def gen_system(rng, stochastic, space_kind=None, small=True, static=False, degenerate=False, sub_molecule=False):
+def gen_system(rng, stochastic, space_kind=None, small=True, static=False, degenerate=False, sub_molecule=False, dt=0.01):
     """an rdsystem dictionary; `static`: no reaction, no diffusion (every state equals the initial one);
     `degenerate`: size-1 grids / periodic axes of length 1-2 / isolated nodes, self-loops, parallel edges"""
     nsp = rng.randint(1, 3)
@@ -154,6 +154,8 @@ def gen_system(rng, stochastic, space_kind=None, small=True, static=False, degen
     for l in labels:
         sp = {"label": l, "density": 0}
         if not static:
+            # fractions of the stability bound (geometry / dt); scaled below once the space is known, so that the explicit
+            # schemes stay bounded (amounts beyond 2^31 are outside the recorded size assumption, DESIGN §4)
             D = rng.choice([0, 0.5, 1.0, 2.0, 0.25])
             if nenv == 2 and rng.random() < 0.4:
                 D = {"a": D, "b": rng.choice([0, 0.5, 3.0])}
@@ -201,6 +203,19 @@ def gen_system(rng, stochastic, space_kind=None, small=True, static=False, degen
         if degenerate and edges and rng.random() < 0.6:
             edges.append(dict(edges[0]))      # parallel edge
         space = {"type": "graph", "nodes": nodes, "edges": edges}
+    # scale the diffusion coefficients: (number of slots) * kd * dt <= 0.3 with kd <= D / scale
+    if kind == "grid":
+        scale = space["cell_volume"] ** (2.0 / 3.0) / 6.0
+    else:
+        vmin = min(nd["volume"] for nd in nodes)
+        worst = max([e["surface"] / e["distance"] for e in edges] + [1.0])
+        scale = vmin / worst / max(1, 2 * len(edges))
+    dmax = 0.3 * scale / dt / 3.0
+    for sp in species:
+        if isinstance(sp.get("D"), dict):
+            sp["D"] = {k: v * dmax for k, v in sp["D"].items()}
+        elif "D" in sp:
+            sp["D"] = sp["D"] * dmax
     state = []
     for s in range(nsp):
         for c in range(n):
@@ -245,18 +260,21 @@ def gen_script(rng, option, space_kind=None, dyadic=None, policy=None, static=Fa
                units=True, max_steps=120, mode=None):
     """(script description for life_child, info) — a VALID script"""
     stochastic = option != "euler"
-    system, nsp, n = gen_system(rng, stochastic, space_kind, static=static, degenerate=degenerate, sub_molecule=sub_molecule)
     dyadic = rng.random() < 0.6 if dyadic is None else dyadic
     if dyadic:
         dt = 2.0 ** (-rng.randint(2, 7))
     else:
         dt = rng.choice([0.01, 0.003, 0.07, 0.0123, 0.1])
+    system, nsp, n = gen_system(rng, stochastic, space_kind, static=static, degenerate=degenerate, sub_molecule=sub_molecule, dt=dt)
     nsteps = rng.randint(1, max_steps)
     tmax = dt * nsteps if rng.random() < 0.5 else dt * (nsteps + rng.choice([0.25, 0.5, 0.9]))
     policy = policy or rng.choice(POLICIES)
+    zero_tmax = rng.random() < 0.06
     ts, style = gen_tsamples(rng, dt, tmax)
+    if zero_tmax:
+        tmax = 0.0
     kw = {"t_sample": ts, "time_step": dt, "sampling_policy": policy, "rng_seed": rng.randint(0, 2 ** 31 - 1)}
-    explicit_tmax = rng.random() < 0.6 or not ts or option == "gillespie"
+    explicit_tmax = rng.random() < 0.6 or not ts or option == "gillespie" or zero_tmax
     if explicit_tmax:
         kw["t_max"] = tmax
     vary_units = units and rng.random() < 0.5
